@@ -17,7 +17,8 @@
                          sequence of secondary blocks (sparsity patterns) *)
 From Coq Require Import List ZArith Arith Lia Sorted Permutation.
 Import ListNotations.
-From PP Require Import Model.C05 Proofs.C05 Model.C06 Proofs.C06 Model.C07 Proofs.C07.
+From PP Require Import Model.C05 Proofs.C05 Model.C06 Proofs.C06 Model.C07 Proofs.C07
+     Proofs.C07_blocks.
 
 (* (1) Block elimination.  For additive blocks over commutative groups and a two-sided
    inverse [inv] of A_ss:  (x_p, x_s) solves the block system  iff  x_p solves the reduced
@@ -38,12 +39,10 @@ Print Assumptions C07_schur.
 (* (2a) Rows, after ANY history of set/remove/assemble calls and for ANY primary-equation
    argument: primary rows ++ secondary rows contain every row of the full system exactly
    once (no row lost or duplicated by a grid restriction).
-   PARTIAL: this is about the specification-level row lists prim_rows / sec_rows (C06's
-   rows_spec vocabulary, which C06_rows proves to be what assemble stacks for the primary
-   block); that the two loops of assemble_schur_complement_system (model: schur_blocks)
-   stack exactly sec_rows is established on every run by the execution correspondence
-   (Coq recomputes A_pp, A_sp, A_ss, b_p, b_s of each generated split with schur_blocks and
-   compares with the code), not by a theorem. *)
+   This statement is about the specification-level row lists prim_rows / sec_rows; that the
+   two loops of assemble_schur_complement_system (model: schur_blocks) stack exactly these
+   rows is theorem C07_blocks below (the name _partial is kept from the first round, when
+   that link was established by the execution correspondence only). *)
 Theorem C07_rows_partial :
   forall (V : Type) (vzero : V) (vopp : V -> V) (eval : nat -> list (@prow V)) g s ops a,
   let es := efinal vzero vopp eval g s ops in
@@ -51,6 +50,36 @@ Theorem C07_rows_partial :
               (seq 0 (length (flat_map (fun kv => seq 0 (esize es (fst kv))) (equations es)))).
 Proof. exact thm_rows_partition. Qed.
 Print Assumptions C07_rows_partial.
+
+(* (2a, closed) What assemble_schur_complement_system builds, after ANY history: if the
+   operators have the declared sizes, the primary-equation argument is accepted, no
+   restricted primary equation lives on no grid, the projections exist and are non-empty,
+   there is at least one block for the secondary list and the secondary block is square,
+   then the model of the code succeeds and A_pp, A_ps, A_sp, A_ss, b_p, b_s are exactly the
+   rows prim_rows / sec_rows of the full system (all equations stacked in insertion order,
+   negated right-hand side), cut to the primary / secondary columns.
+     selA .. rows = the Jacobian rows [rows] of the full system over all dofs,
+     selb .. rows = the (negated) residual entries [rows] of the full system. *)
+Theorem C07_blocks :
+  forall (V : Type) (vzero : V) (vopp : V -> V) (eval : nat -> list (@prow V))
+         g s ops pe pv allcols nall colsp colss,
+  let es := efinal vzero vopp eval g s ops in
+  sized eval es -> arg_ok es pe = true -> restricted_nonempty es pe ->
+  projection_to s (asm_vars s None) = OProjM allcols nall ->
+  proj_cols s (parse s pv) = inl colsp ->
+  proj_cols s (filter (fun id => negb (memb id (parse s pv))) (map vid (vars s))) = inl colss ->
+  blocks_spec es pe <> [] -> colsp <> [] -> colss <> [] ->
+  nres pe (equations es) + nsecq pe (equations es) <> 0 ->
+  length (sec_rows es pe) = length colss ->
+  let AP := selA vzero eval allcols es (prim_rows es pe) in
+  let AS := selA vzero eval allcols es (sec_rows es pe) in
+  schur_blocks vzero vopp eval s es pe pv =
+  SOk (map (cut vzero colsp) AP) (map (cut vzero colss) AP)
+      (map (cut vzero colsp) AS) (map (cut vzero colss) AS)
+      (selb vzero vopp eval es (prim_rows es pe)) (selb vzero vopp eval es (sec_rows es pe))
+      colsp colss.
+Proof. exact thm_schur_blocks. Qed.
+Print Assumptions C07_blocks.
 
 (* (2a') _gridbased_equation_complement: for every restricted primary equation exactly the
    rows of the equation that were not kept (unrestricted ones: None), provided no restricted
@@ -135,6 +164,9 @@ Example C07_nonvacuous :
   let s := final ex7_g ex7_vops in
   let es := efinal 0%Z Z.opp ex7_eval ex7_g s ex7_ops in
   Forall (wf_op ex7_g) ex7_vops /\ restricted_nonempty es ex7_arg /\
+  sized ex7_eval es /\ arg_ok es ex7_arg = true /\
+  projection_to s (asm_vars s None) = OProjM [0; 1; 2; 3; 4] 5 /\
+  nres ex7_arg (equations es) + nsecq ex7_arg (equations es) = 2 /\
   prim_rows es ex7_arg = [2] /\ sec_rows es ex7_arg = [0; 1; 3; 4] /\
   complement es (blocks_spec es ex7_arg) = inl [(4, Some [0; 1])] /\
   schur_blocks 0%Z Z.opp ex7_eval s es ex7_arg (Some [ById 1]) =
@@ -146,9 +178,12 @@ Example C07_nonvacuous :
   snd (inverter_run (list Z) (list Z) pat_eqbZ (fun p => p) None [[1]; [2]; [2]; [1]]%Z)
     = [[1]; [2]; [2]; [1]]%Z.
 Proof.
-  split; [|split].
+  split; [|split; [|split]].
   - unfold ex7_vops, wf_op, grids_ok. repeat constructor; cbn; lia.
   - intros name gs Hn Hk. vm_compute in Hn.
     destruct Hn as [E|[E|[]]]; subst name; vm_compute; discriminate.
+  - intros name o H. vm_compute in H.
+    repeat (destruct H as [H|H]; [inversion H; subst; vm_compute; reflexivity|]).
+    destruct H.
   - vm_compute. repeat split; reflexivity.
 Qed.
